@@ -1,6 +1,7 @@
 """C18: printed paths are valid override paths; flag directives apply in order."""
 from __future__ import annotations
 
+import ast
 import copy
 import itertools
 
@@ -22,9 +23,11 @@ TECHNIQUE = ('bounded-exhaustive enumeration of configurations (printed path '
              'every directive sequence x split x read pattern against a '
              'sequential reference, and of call expressions over a literal '
              'alphabet')
-RULE = ('(a) DAG shapes over {Config, positional Config, list, dict whose keys '
-        'range over an alphabet of awkward strings and ints} with literal '
-        'leaves: every path printed by as_dict_flattened / as_str_flattened; '
+RULE = ('(a) DAG shapes over {Config, Configs with positional-only/*args '
+        'arguments (with and without **kwargs), list, dict whose keys '
+        'range over an alphabet of awkward strings and ints} x every leaf of a '
+        'literal alphabet (incl. strings spelled like other literals); each '
+        'path is written back with a new value and with its own printed value: every path printed by as_dict_flattened / as_str_flattened; '
         '(b) every sequence up to a length over {config:, config: with '
         'arguments, config_str:, set: (two paths x two values), fiddler: '
         '(mutating, returning, with arguments)} x every split into parse() '
@@ -63,8 +66,8 @@ def mk(cls, fn):
   return make
 
 
-def mk_pos(vals):
-  c = fdl.Config(N.node_pos)
+def mk_pos(vals, fn=None):
+  c = fdl.Config(fn or N.node_pos)
   p0, a, va0 = vals
   if p0 is not shapes.UNSET:
     c[0] = p0
@@ -81,6 +84,7 @@ def kinds():
       'cfg': K('cfg', 2, True, mk(fdl.Config, N.node), True),
       'par': K('par', 2, True, mk(fdl.Partial, N.node_b), True),
       'pos': K('pos', 3, True, mk_pos, True),
+      'pos2': K('pos2', 3, True, lambda v: mk_pos(v, N.node_pos2), True),
       'list2': K('list2', 2, False, list),
       'tuple1': K('tuple1', 1, False, tuple),
   }
@@ -91,6 +95,10 @@ def kinds():
 
 
 LEAVES = [7, 'str leaf', None]
+# every shape is run once per leaf value (strings that look like other
+# literals included)
+LEAF_VALUES = [7, 'str leaf', None, 'False', 'true', 'TRUE', '7', 'None',
+               " 'q' ", True, 1.5, (1, 'a'), '']
 NCHUNK = 32
 
 
@@ -118,8 +126,9 @@ def path_cases(b):
         seen.add(s)
         yield s
   for s in shapes.all_shapes(
-      [_KK[m] for m in ['cfg', 'par', 'pos', 'list2', 'tuple1', 'dict0']],
-      b['n'], 1, root_kinds=['cfg', 'pos', 'par']):
+      [_KK[m] for m in ['cfg', 'par', 'pos', 'pos2', 'list2', 'tuple1',
+                         'dict0']],
+      b['n'], 1, root_kinds=['cfg', 'pos', 'pos2', 'par']):
     if s not in seen:
       seen.add(s)
       yield s
@@ -188,10 +197,17 @@ def spec_of(parsed, root):
   return tuple(out), v
 
 
-def check_paths(shape, res):
+def check_paths(shape, res, only_leaf=None):
+  for li, leaf in enumerate(LEAF_VALUES):
+    if only_leaf is None or only_leaf == li:
+      _check_paths(shape, res, li)
+
+
+def _check_paths(shape, res, li):
+  LEAVES = [LEAF_VALUES[li]]
   objs = shapes.materialize(shape, _KK, LEAVES)
   root = objs[-1]
-  case = {'shape': shape}
+  case = {'shape': shape, 'leaf': li}
 
   def bad(key, msg):
     res.violation(f'C18/{key}', f'{case}: config {root!r}: {msg}', case)
@@ -257,6 +273,34 @@ def check_paths(shape, res):
     if canon.canon_cfg(target) != canon.canon_cfg(twin):
       bad(f'override-changed-something-else/{_keyclass(p)}',
           f'{p!r}: got {target!r} expected {twin!r}')
+    # writing the printed value back as a Python literal changes nothing
+    try:
+      is_literal = ast.literal_eval(repr(value)) == value
+    except Exception:  # pylint: disable=broad-except
+      is_literal = False
+    if is_literal:
+      target = shapes.materialize(shape, _KK, LEAVES)[-1]
+      twin = shapes.materialize(shape, _KK, LEAVES)[-1]
+      res.transitions += 1
+      try:
+        utils.set_value(target, f'{p}={value!r}')
+      except Exception as e:  # pylint: disable=broad-except
+        bad(f'set_value-of-printed-value-raises/{_keyclass(p)}',
+            f'{p}={value!r}: {e!r}')
+        continue
+      parent = follow_spec(twin, path[:-1]) if len(path) > 1 else twin
+      kind, k = path[-1]
+      fresh = ast.literal_eval(repr(value))   # what the text conveys
+      if isinstance(parent, fdl.Buildable):
+        if kind == 'index':
+          parent[k] = fresh
+        else:
+          setattr(parent, k, fresh)
+      else:
+        parent[k] = fresh
+      if canon.canon_cfg(target) != canon.canon_cfg(twin):
+        bad(f'writing-printed-value-back-changes-it/{_keyclass(p)}',
+            f'{p}={value!r}: got {target!r} expected {twin!r}')
   res.outcomes[f'paths:{min(len(exp), 6)}'] += 1
   # history: print, mutate a container in place so that it now holds a
   # Buildable, print again
@@ -539,7 +583,7 @@ def replay(case):
   if _KK is None:
     _KK = kinds()
   if 'shape' in case:
-    check_paths(_shape(case['shape']), res)
+    check_paths(_shape(case['shape']), res, case.get('leaf'))
   elif 'directives' in case:
     print('replay the directive sequence by running the flags unit; case:',
           case)
